@@ -18,7 +18,7 @@ RULE = (
     "directive / in a data list continued over two lines, unterminated string with an escaped quote followed by lines holding quote characters, bad size suffix, bad outer / inner index register, unterminated string before a newline / at end of input, size suffix "
     "missing at end of line) inserted at every statement position (thorough) or 8 positions (quick), in the main file and in included "
     "files; the reported file, zero-based line, quoted line text and (lexical errors) column are judged against the known insertion point; "
-    "distinct by hash of (rendered files, fault); non-trivial = every case (an error is always injected)"
+    "a quarter of the sources carry a uniform extra indentation on every line, a fifth of the cases are repeated through the command line (with -D definitions) and the file API; distinct by hash of (rendered files, fault); non-trivial = every case (an error is always injected)"
 )
 ASSUMPTIONS = [
     "NodeError text: '\"msg\" at\\n<file>:<line> <line text>'; scanner error text: '<file>:<line>:<column> : msg\\n<line text>\\n<caret>'",
@@ -84,6 +84,14 @@ def check_case(res: Res, p: dict, name: str, where: tuple[list, int], lay_seed: 
         files = dict(rd.files)
     finally:
         del lst[i]
+    lrng = random.Random(lay_seed ^ 0x17)
+    if lrng.random() < 0.25:
+        # every line of every file carries the same extra indentation (a routine kept in an indented block of a larger file)
+        pad = lrng.choice(["    ", "  ", "\t", "        "])
+        shift = lambda t: "\n".join((pad + ln) if ln.strip() else ln for ln in t.split("\n"))  # noqa: E731
+        main = shift(main)
+        files = {k: (shift(v) if isinstance(v, str) else v) for k, v in files.items()}
+        res.count("uniformly_indented_sources")
     file_text = main if fname == "t.s" else files[fname].rstrip("\n")
     flines = file_text.split("\n")
     if line >= len(flines) or text.split("\n")[0] not in flines[line]:
@@ -144,6 +152,28 @@ def check_case(res: Res, p: dict, name: str, where: tuple[list, int], lay_seed: 
     if want_text.strip() and want_text not in etext.split("\n") and want_text.strip() not in etext:
         quoted = [ln for ln in etext.split("\n")[1:3]]
         res.violate("wrong-location", f"{name}: location {fname}:{line} is right but the quoted text is {quoted!r}, the line reads {want_text!r}", wit)
+        return
+    if lay_seed % 5 == 0 and kind != "scan_eof" and span == 1:
+        # the same faulty source through the command line with -D definitions and through the file API: same file, line and column
+        from vf.frontends import cli_inprocess, file_api
+
+        for front in ("cli", "api"):
+            if front == "cli":
+                fr = cli_inprocess("ips", src, files or None, "high" if p.get("rom") == "high" else "low", False, ["DQ9=1", "DR9=2", "DS9=DQ9+2"])
+            else:
+                fr = file_api("patch", src, files or None, "high" if p.get("rom") == "high" else "low", False, {"DQ9": 1})
+            text = (fr.exc_text or "") + "\n" + (fr.log or "")
+            flocs = [(m.group("file"), int(m.group("line")), int(m.group("col")) if m.group("col") is not None else None) for m in LOC_RE.finditer(text)]
+            flocs = [l for l in flocs if l[0].endswith(".s")]
+            res.count(f"front_end_runs[{front}]")
+            if not flocs:
+                res.count("front_end_without_location_unjudged")
+                continue
+            if not [l for l in flocs if l[0] == fname and l[1] == line and (want_col is None or l[2] == want_col)]:
+                got = flocs[0]
+                res.violate("wrong-location", f"{name} through the {front} front end: reported {got[0]}:{got[1]}" + (f":{got[2]}" if got[2] is not None else "") +
+                            f", the offending statement is at {fname}:{line}" + (f":{want_col}" if want_col is not None else "") + f" in {want_text!r}", dict(wit, front=front))
+                return
 
 
 def run_shard(shard: dict) -> Res:
